@@ -313,7 +313,13 @@ func runC18(r *core.Run) {
 			outcomes := map[string]bool{}
 			var fail *core.Fail
 			var shared *c18shared
+			nruns := 0
 			run := func(prefix []int) *sched.Exec {
+				// the collector is switched off during an execution (finalizers would be an unowned source of
+				// nondeterminism); garbage is collected between executions, where nothing of the library is live
+				if nruns++; nruns%256 == 0 {
+					runtime.GC()
+				}
 				tensor.VerifResetPools()
 				shared = c18Setup()
 				sh := shared
